@@ -16,6 +16,7 @@
 
 struct shim_logent shim_logv[SHIM_MAXLOG];
 int shim_nlog, shim_ntotal, shim_log_enabled, shim_out_fd = 1, shim_static_bufs;
+int shim_disabled;      /* set before any thread starts (TSan runs): wrappers pass straight through */
 
 static long long cap[MAXFD];
 static long long wbytes[MAXFD];
@@ -84,6 +85,7 @@ static void logcall(char kind, int fd, long long n, long long ret, const void *b
 }
 
 ssize_t __wrap_read(int fd, void *buf, size_t n) {
+    if(shim_disabled) return __real_read(fd, buf, n);
     long long act; size_t want = n;
     if(fault_for('r', fd, &act)) {
         if(act > 0) { errno = (int)act; logcall('r', fd, n, -1, buf); return -1; }
@@ -97,6 +99,7 @@ ssize_t __wrap_read(int fd, void *buf, size_t n) {
 }
 
 ssize_t __wrap_write(int fd, const void *buf, size_t n) {
+    if(shim_disabled) return __real_write(fd, buf, n);
     long long act; size_t want = n;
     if(!env_done) shim_env();
     if(match_fd(kill_fd, fd) && kill_fd != -100) {
@@ -119,6 +122,7 @@ ssize_t __wrap_write(int fd, const void *buf, size_t n) {
 }
 
 off_t __wrap_lseek(int fd, off_t off, int whence) {
+    if(shim_disabled) return __real_lseek(fd, off, whence);
     long long act;
     if(fault_for('s', fd, &act) && act > 0) { errno = (int)act; logcall('s', fd, off, -1, NULL); return (off_t)-1; }
     off_t r = __real_lseek(fd, off, whence);
@@ -127,6 +131,7 @@ off_t __wrap_lseek(int fd, off_t off, int whence) {
 }
 
 int __wrap_ftruncate(int fd, off_t len) {
+    if(shim_disabled) return __real_ftruncate(fd, len);
     long long act;
     if(fault_for('t', fd, &act) && act > 0) { errno = (int)act; logcall('t', fd, len, -1, NULL); return -1; }
     int r = __real_ftruncate(fd, len);
@@ -135,6 +140,7 @@ int __wrap_ftruncate(int fd, off_t len) {
 }
 
 int __wrap_mkstemp(char *t) {
+    if(shim_disabled) return __real_mkstemp(t);
     int fd = __real_mkstemp(t);
     temp_fd = fd;
     if(fd >= 0 && fd < MAXFD) { wbytes[fd] = 0; for(int k = 0; k < 4; k++) calls[k][fd] = 0; }
@@ -145,6 +151,7 @@ int __real_open(const char *path, int flags, ...);
 int __wrap_open(const char *path, int flags, ...) {
     mode_t mode = 0;
     if(flags & (O_CREAT | O_TMPFILE)) { va_list ap; va_start(ap, flags); mode = va_arg(ap, mode_t); va_end(ap); }
+    if(shim_disabled) return __real_open(path, flags, mode);
     if(!env_done) shim_env();
     int fd = __real_open(path, flags, mode);
     if(fd >= 0 && fd < MAXFD) {
